@@ -80,6 +80,12 @@ mut('C06', 'write_all_wrong_key', MV, "        if let Some(file) = guard.get_fil
 # ---- C09
 mut('C09', 'copy_dst_not_relative', MV, "                dst_root.mash(src.path().trim_prefix(src_root.path()))\n            };\n\n            // Recreate links", "                dst_root.mash(src.path().base()?)\n            };\n\n            // Recreate links")
 mut('C09', 'copier_chmod_dirs_flags', 'src/sys/fs/copy.rs', "        self.opts.cdirs = true;\n        self.opts.cfiles = false;", "        self.opts.cdirs = true;\n        self.opts.cfiles = true;")
+mut('C09', 'copy_dir_mode_condition_swapped', MV, "            Some(x) if cp.cdirs || !cp.cfiles => Some(x),", "            Some(x) if cp.cfiles || !cp.cdirs => Some(x),")
+mut('C02', 'stdfs_copy_file_mode_condition', SM, "            Some(x) if cp.cfiles || !cp.cdirs => Some(x),", "            Some(x) if cp.cfiles && !cp.cdirs => Some(x),")
+mut('C07', 'sync_skips_equal_length', MF, "                        f.data.clone_from(&self.data);", "                        if f.data.len() != self.data.len() {\n                            f.data.clone_from(&self.data);\n                        }")
+mut('C18', 'config_dir_conditional_insert', MV, "                config_dirs.insert(0, config_dir);", "                if !config_dirs.contains(&config_dir) {\n                    config_dirs.insert(0, config_dir);\n                }")
+mut('C19', 'slice_len_from_size_hint', 'src/core/iter.rs', "        let len = (self.clone()).count() as isize;", "        let len = match self.size_hint().1 {\n            Some(n) => n as isize,\n            None => (self.clone()).count() as isize,\n        };")
+mut('C15', 'trim_prefix_skip_bytes_as_chars', PA, "PathBuf::from(&base[prefix.len()..])", "PathBuf::from(base.chars().skip(prefix.len()).collect::<String>())")
 # ---- C02
 mut('C02', 'stdfs_chmod_b_default_nonrecursive', SM, "                follow: false,\n                recursive: true,\n                sym: \"\".to_string(),", "                follow: false,\n                recursive: false,\n                sym: \"\".to_string(),")
 mut('C02', 'stdfs_append_line_no_newline', SM, "            Stdfs::append_all(path, line + \"\\n\")?;", "            Stdfs::append_all(path, line)?;")
